@@ -158,7 +158,8 @@ pub fn gen_preset(rng: &mut Prng, kind: PresetKind, num_tune: u64, num_draws: u6
                 // L = infinity (no refresh) only together with subsample_frequency 0 (one step per draw);
                 // otherwise a draw would take 1e6 steps
                 if $s.subsample_frequency == 0.0 && rng.chance(0.3) {
-                    $s.momentum_decoherence_length = f64::INFINITY;
+                    // (1e300 instead of infinity: "no refresh" all the same, and it survives the JSON replay file)
+                    $s.momentum_decoherence_length = 1e300;
                 }
             }
         }};
